@@ -28,8 +28,8 @@ struct Parsed {
 }
 
 fn parse_source() -> Option<Parsed> {
-    let fq = std::fs::read_to_string("/repo/src/curve/zorro/fq.rs").ok()?;
-    let g1 = std::fs::read_to_string("/repo/src/curve/zorro/g1.rs").ok()?;
+    let fq = std::fs::read_to_string(format!("{}/src/curve/zorro/fq.rs", crate::paths::repo_root())).ok()?;
+    let g1 = std::fs::read_to_string(format!("{}/src/curve/zorro/g1.rs", crate::paths::repo_root())).ok()?;
     let num_after = |text: &str, key: &str| -> Option<BigUint> {
         let i = text.find(key)? + key.len();
         let rest = &text[i..];
